@@ -168,7 +168,7 @@ def setitem_drops_raw():
                 continue
             r.oblige(s, 'raw-dropped-when-hashed-subpacket-added/p%d' % pi, z3.BoolVal(isinstance(s.heap.get(('sp', '_hashed_raw')), E.VNone)))
             hd = s.heap.get(('sp', '_hashed_sp'))
-            r.oblige(s, 'stored-in-hashed-area/p%d' % pi, z3.BoolVal(isinstance(hd, E.VDict) and any(x is val for _, x in hd.pairs)))
+            r.oblige(s, 'stored-in-hashed-area/p%d' % pi, z3.BoolVal(isinstance(hd, E.VDict) and any(x is val for _, x in hd.of(s))))
         return r.result()
     return Scenario(label, SP + '.__setitem__', gen, props=('C05',))
 
